@@ -10,6 +10,8 @@ import (
 	"encoding/hex"
 	"fmt"
 	"math/big"
+	"runtime"
+	"strings"
 	"sync"
 	"testing"
 	"time"
@@ -91,6 +93,73 @@ type c46Obs struct {
 	timedOut   bool
 	overrun    string // logical-clock evidence: retry loop alive after the signing deadline
 	current    uint64
+	// fault plan: which action-level block waits (0 = first = signing
+	// deadline, 1 = second = claim deadline) fail when the deadline is armed
+	failActionWait  map[int]bool
+	actionWaitCalls int
+	lastWaitFailed  bool
+	unarmed         string // evidence: a context left without any deadline
+	// glue mode (processCoordinationResult): plain recording
+	glueDeadlines []uint64
+	glueWaiters   []chan uint64
+	glueExecWaits []uint64
+}
+
+var errC46BlockWait = fmt.Errorf("c46: injected fault: cannot get block counter / block height waiter")
+
+// number of goroutines that are inside withCancelOnBlock's helper goroutine
+// but NOT blocked in one of the harness' stubs, i.e. that still have to act
+// on the outcome of their block wait (or have not started yet).
+func c46ArmingGoroutines() int {
+	buf := make([]byte, 1<<18)
+	for {
+		n := runtime.Stack(buf, true)
+		if n < len(buf) {
+			buf = buf[:n]
+			break
+		}
+		buf = make([]byte, 2*len(buf))
+	}
+	count := 0
+	for _, g := range strings.Split(string(buf), "\n\n") {
+		if strings.Contains(g, "withCancelOnBlock.func1") && !strings.Contains(g, "(*c46Obs).") && !strings.Contains(g, "(*c46Counter).") {
+			count++
+		}
+	}
+	return count
+}
+
+// checkArmed: called by the executor stand-ins right after they learnt the
+// deadline block of the context they were handed. If arming that deadline
+// failed (injected fault) the context must nevertheless be bounded: already
+// cancelled, or guarded by a deadline that was armed on a retry. The check
+// first waits until every arming goroutine has finished acting on the outcome
+// of its wait (an event that always arrives), so absence of a cancellation is
+// not a matter of timing.
+func (o *c46Obs) checkArmed(ctx context.Context, deadline uint64, what string) {
+	o.mu.Lock()
+	failed := o.lastWaitFailed
+	o.mu.Unlock()
+	if !failed {
+		return
+	}
+	if !verifkit.Eventually(c46Patience, func() bool { return c46ArmingGoroutines() == 0 }) {
+		o.noteTimeout()
+		return
+	}
+	if ctx.Err() != nil {
+		return
+	}
+	o.mu.Lock()
+	defer o.mu.Unlock()
+	for _, tm := range o.timers {
+		if tm.kind == "action" && !tm.fired && tm.block <= deadline {
+			return
+		}
+	}
+	if o.unarmed == "" {
+		o.unarmed = fmt.Sprintf("the block wait arming the %s deadline (block %d) failed and the context was left alive without any deadline", what, deadline)
+	}
 }
 
 var errC46AttemptFailed = fmt.Errorf("c46: attempt made to fail by the harness")
@@ -130,6 +199,18 @@ func (o *c46Obs) addTimer(b uint64, kind string) *c46Timer {
 func (o *c46Obs) actionWait(ctx context.Context, b uint64) error {
 	o.active.Add(1)
 	defer o.active.Done()
+	o.mu.Lock()
+	n := o.actionWaitCalls
+	o.actionWaitCalls++
+	fail := o.failActionWait[n]
+	o.lastWaitFailed = fail
+	o.mu.Unlock()
+	if fail {
+		// like node.waitForBlockHeight when chain.BlockCounter() or
+		// BlockHeightWaiter() fails: an error, at once
+		o.actionCh <- b
+		return errC46BlockWait
+	}
 	tm := o.addTimer(b, "action")
 	o.actionCh <- b
 	select {
@@ -315,8 +396,12 @@ func (c *c46Counter) WaitForBlockHeight(h uint64) error {
 	return nil
 }
 func (c *c46Counter) BlockHeightWaiter(h uint64) (<-chan uint64, error) {
+	// used by node.waitForBlockHeight (glue mode): recorded, fired by the harness
 	ch := make(chan uint64, 1)
-	ch <- h
+	c.o.mu.Lock()
+	c.o.glueDeadlines = append(c.o.glueDeadlines, h)
+	c.o.glueWaiters = append(c.o.glueWaiters, ch)
+	c.o.mu.Unlock()
 	return ch, nil
 }
 func (c *c46Counter) CurrentBlock() (uint64, error)             { return c.o.current, nil }
@@ -343,6 +428,7 @@ type c46Exec struct {
 
 func (e *c46Exec) signBatch(ctx context.Context, messages []*big.Int, startBlock uint64) ([]*tecdsa.Signature, error) {
 	e.timeout, e.gotDL = e.o.recv(e.o.actionCh)
+	e.o.checkArmed(ctx, e.timeout, "signing")
 	ctx = context.WithValue(ctx, c46MarkKey{}, e.o)
 	e.o.setSigning(ctx, startBlock)
 	sigs, err := e.real.signBatch(ctx, messages, startBlock)
@@ -371,6 +457,7 @@ func (e *c46Exec) signBatch(ctx context.Context, messages []*big.Int, startBlock
 
 func (e *c46Exec) sign(ctx context.Context, message *big.Int, startBlock uint64) (*tecdsa.Signature, *signingActivityReport, uint64, error) {
 	e.timeout, e.gotDL = e.o.recv(e.o.actionCh)
+	e.o.checkArmed(ctx, e.timeout, "signing")
 	ctx = context.WithValue(ctx, c46MarkKey{}, e.o)
 	e.o.setSigning(ctx, startBlock)
 	sig, report, end, err := e.real.sign(ctx, message, startBlock)
@@ -389,6 +476,7 @@ type c46LowActivityExec struct {
 
 func (e *c46LowActivityExec) sign(ctx context.Context, message *big.Int, startBlock uint64) (*tecdsa.Signature, *signingActivityReport, uint64, error) {
 	e.timeout, e.gotDL = e.o.recv(e.o.actionCh)
+	e.o.checkArmed(ctx, e.timeout, "heartbeat signing")
 	e.o.setSigning(ctx, startBlock)
 	report := &signingActivityReport{}
 	for i := 1; i <= e.total; i++ {
@@ -411,6 +499,7 @@ type c46ClaimExec struct {
 func (e *c46ClaimExec) claimInactivity(ctx context.Context, inactive []group.MemberIndex, heartbeatFailed bool, sessionID *big.Int) error {
 	e.calls++
 	e.timeout, e.gotDL = e.o.recv(e.o.actionCh)
+	e.o.checkArmed(ctx, e.timeout, "inactivity claim")
 	return nil
 }
 
@@ -539,6 +628,9 @@ type c46Run struct {
 	lateClass   string
 	overrun     string
 	clockAtEnd  uint64
+	faulted     bool
+	unarmed     string
+	calls       []*c46SignCall
 }
 
 var c46Key = func() *btcec.PrivateKey {
@@ -546,43 +638,46 @@ var c46Key = func() *btcec.PrivateKey {
 	return k
 }()
 
-// c46Drive builds the action with the real constructor, plugs the REAL signing
-// executor (with observing block functions) in and runs execute() until the
-// signing phase gives up.
-func c46Drive(t *rapid.T, action WalletActionType, start uint64, lateClass string, lateRaw uint64) (*c46Run, bool) {
-	o := c46NewObs(start)
-	pub := (*ecdsa.PublicKey)(&c46Key.PublicKey)
-	var pkh [20]byte
-	copy(pkh[:], btcutil.Hash160(c46Key.PubKey().SerializeCompressed()))
-	w := wallet{publicKey: pub, signingGroupOperators: []chain.Address{"0xa", "0xb", "0xc"}}
-	walletScript := append([]byte{0x00, 0x14}, pkh[:]...)
+type c46Scenario struct {
+	o        *c46Obs
+	w        wallet
+	pkh      [20]byte
+	host     *c46Host
+	btc      *c46Btc
+	real     *signingExecutor
+	proposal CoordinationProposal
+}
 
-	real := newSigningExecutor(
-		[]*signer{{wallet: w, signingGroupMemberIndex: 1}},
+// c46NewScenario: minimal world in which execute() of the given action type
+// reaches its signing step, the proposal, and the REAL signing executor with
+// the given block functions.
+func c46NewScenario(t *rapid.T, action WalletActionType, o *c46Obs, waitFn waitForBlockFn) *c46Scenario {
+	sc := &c46Scenario{o: o}
+	pub := (*ecdsa.PublicKey)(&c46Key.PublicKey)
+	copy(sc.pkh[:], btcutil.Hash160(c46Key.PubKey().SerializeCompressed()))
+	pkh := sc.pkh
+	sc.w = wallet{publicKey: pub, signingGroupOperators: []chain.Address{"0xa", "0xb", "0xc"}}
+	walletScript := append([]byte{0x00, 0x14}, pkh[:]...)
+	sc.real = newSigningExecutor(
+		[]*signer{{wallet: sc.w, signingGroupMemberIndex: 1}},
 		nil, nil,
 		&GroupParameters{GroupSize: 3, GroupQuorum: 2, HonestThreshold: 2},
 		generator.NewProtocolLatch(),
-		o.currentBlock, o.execWait,
+		o.currentBlock, waitFn,
 		signingAttemptsLimit,
 	)
-	exec := &c46Exec{real: real, o: o, lateClass: lateClass, lateRaw: lateRaw}
-
 	btc := &c46Btc{txs: map[bitcoin.Hash]*bitcoin.Transaction{}}
 	host := &c46Host{o: o, pkh: pkh}
+	sc.btc, sc.host = btc, host
 	registerMain := func() {
 		main := btc.fund(walletScript, 50_000_000, 1)
 		btc.history = []bitcoin.Hash{main.Outpoint.TransactionHash}
 		btc.utxos = []*bitcoin.UnspentTransactionOutput{main}
 		host.mainHash = c46UtxoHash(main)
 	}
-	log := logger.With()
-	run := &c46Run{action: action, start: start}
-	var act walletAction
 	switch action {
 	case ActionHeartbeat:
-		p := &HeartbeatProposal{Message: [16]byte{0xff, 0xff, 0xff, 0xff, 0xff, 0xff, 0xff, 0xff, 1}}
-		run.expiry = start + p.ValidityBlocks()
-		act = newHeartbeatAction(log, host, w, exec, p, newHeartbeatFailureCounter(), &c46ClaimExec{o: o}, start, run.expiry, o.actionWait)
+		sc.proposal = &HeartbeatProposal{Message: [16]byte{0xff, 0xff, 0xff, 0xff, 0xff, 0xff, 0xff, 0xff, 1}}
 	case ActionDepositSweep:
 		d := &Deposit{Depositor: chain.Address("0x" + hex.EncodeToString(pkh[:])), WalletPublicKeyHash: pkh, RefundPublicKeyHash: [20]byte{9}, RefundLocktime: [4]byte{0, 0xf1, 0x53, 0x65}}
 		script, err := d.Script()
@@ -597,31 +692,58 @@ func c46Drive(t *rapid.T, action WalletActionType, start uint64, lateClass strin
 			FundingTxHash      bitcoin.Hash
 			FundingOutputIndex uint32
 		}{d.Utxo.Outpoint.TransactionHash, 0})
-		run.expiry = start + p.ValidityBlocks()
-		a := newDepositSweepAction(log, host, btc, w, exec, p, start, run.expiry, o.actionWait)
-		run.broadcast = a.broadcastTimeout
-		act = a
+		sc.proposal = p
 	case ActionRedemption:
 		registerMain()
 		script := append([]byte{0x00, 0x14}, make([]byte, 20)...)
 		host.request = &RedemptionRequest{RedeemerOutputScript: script, RequestedAmount: 1_000_000, TreasuryFee: 500, TxMaxFee: 10_000}
-		p := &RedemptionProposal{RedeemersOutputScripts: []bitcoin.Script{script}, RedemptionTxFee: big.NewInt(900)}
-		run.expiry = start + p.ValidityBlocks()
-		a := newRedemptionAction(log, host, btc, w, exec, p, start, run.expiry, o.actionWait)
-		run.broadcast = a.broadcastTimeout
-		act = a
+		sc.proposal = &RedemptionProposal{RedeemersOutputScripts: []bitcoin.Script{script}, RedemptionTxFee: big.NewInt(900)}
 	case ActionMovingFunds:
 		registerMain()
-		p := &MovingFundsProposal{TargetWallets: [][20]byte{{1}, {2}}, MovingFundsTxFee: big.NewInt(700)}
-		run.expiry = start + p.ValidityBlocks()
-		a := newMovingFundsAction(log, host, btc, w, exec, p, start, run.expiry, o.actionWait)
-		run.broadcast = a.broadcastTimeout
-		act = a
+		sc.proposal = &MovingFundsProposal{TargetWallets: [][20]byte{{1}, {2}}, MovingFundsTxFee: big.NewInt(700)}
 	case ActionMovedFundsSweep:
 		registerMain()
 		moved := btc.fund(walletScript, 7_000_000, 3)
-		p := &MovedFundsSweepProposal{MovingFundsTxHash: moved.Outpoint.TransactionHash, MovingFundsTxOutputIndex: 0, SweepTxFee: big.NewInt(600)}
-		run.expiry = start + p.ValidityBlocks()
+		sc.proposal = &MovedFundsSweepProposal{MovingFundsTxHash: moved.Outpoint.TransactionHash, MovingFundsTxOutputIndex: 0, SweepTxFee: big.NewInt(600)}
+	}
+	if sc.proposal.ActionType() != action {
+		t.Fatalf("proposal of type %v for %v", sc.proposal.ActionType(), action)
+	}
+	return sc
+}
+
+// c46Drive builds the action with the real constructor, plugs the REAL signing
+// executor (with observing block functions) in and runs execute() until the
+// signing phase gives up. failArming: the block wait that arms the action's
+// signing deadline fails.
+func c46Drive(t *rapid.T, action WalletActionType, start uint64, lateClass string, lateRaw uint64, failArming bool) (*c46Run, bool) {
+	o := c46NewObs(start)
+	if failArming {
+		o.failActionWait = map[int]bool{0: true}
+	}
+	sc := c46NewScenario(t, action, o, o.execWait)
+	exec := &c46Exec{real: sc.real, o: o, lateClass: lateClass, lateRaw: lateRaw}
+	host, btc, w := sc.host, sc.btc, sc.w
+	log := logger.With()
+	run := &c46Run{action: action, start: start, faulted: failArming}
+	run.expiry = start + sc.proposal.ValidityBlocks()
+	var act walletAction
+	switch p := sc.proposal.(type) {
+	case *HeartbeatProposal:
+		act = newHeartbeatAction(log, host, w, exec, p, newHeartbeatFailureCounter(), &c46ClaimExec{o: o}, start, run.expiry, o.actionWait)
+	case *DepositSweepProposal:
+		a := newDepositSweepAction(log, host, btc, w, exec, p, start, run.expiry, o.actionWait)
+		run.broadcast = a.broadcastTimeout
+		act = a
+	case *RedemptionProposal:
+		a := newRedemptionAction(log, host, btc, w, exec, p, start, run.expiry, o.actionWait)
+		run.broadcast = a.broadcastTimeout
+		act = a
+	case *MovingFundsProposal:
+		a := newMovingFundsAction(log, host, btc, w, exec, p, start, run.expiry, o.actionWait)
+		run.broadcast = a.broadcastTimeout
+		act = a
+	case *MovedFundsSweepProposal:
 		a := newMovedFundsSweepAction(log, host, btc, w, exec, p, start, run.expiry, o.actionWait)
 		run.broadcast = a.broadcastTimeout
 		act = a
@@ -634,8 +756,9 @@ func c46Drive(t *rapid.T, action WalletActionType, start uint64, lateClass strin
 	o.mu.Lock()
 	defer o.mu.Unlock()
 	run.overrun = o.overrun
+	run.unarmed = o.unarmed
 	run.clockAtEnd = o.clock
-	if run.overrun == "" && (!joined || o.timedOut) {
+	if run.overrun == "" && run.unarmed == "" && (!joined || o.timedOut) {
 		// no logical-clock evidence and the hand-over between goroutines did
 		// not settle: machinery trouble
 		return nil, false
@@ -645,6 +768,14 @@ func c46Drive(t *rapid.T, action WalletActionType, start uint64, lateClass strin
 	}
 	first := o.calls[0]
 	run.signStart, run.signTimeout = o.signStart, exec.timeout
+	for _, c := range o.calls {
+		run.calls = append(run.calls, c)
+	}
+	if failArming {
+		// the signing phase is over at once (or the deadline was re-armed):
+		// nothing else to read
+		return run, true
+	}
 	if !first.hasLoop {
 		t.Fatalf("%v: the signing executor did not register a loop timeout (execute: %v)", action, run.err)
 	}
@@ -659,6 +790,90 @@ func c46Drive(t *rapid.T, action WalletActionType, start uint64, lateClass strin
 	}
 	run.confirm = append(run.confirm, o.confirm...)
 	return run, true
+}
+
+// --- the deadlines as computed by the node's glue ------------------------------
+
+type c46GlueRun struct {
+	deadlines []uint64 // block heights the ACTION waits for through the node's block counter
+	execWaits []uint64 // block heights the real signing executor waits for
+	confirm   []uint64
+}
+
+// plain recording wait function for the executor in glue mode
+func (o *c46Obs) glueExecWait(ctx context.Context, b uint64) error {
+	o.active.Add(1)
+	defer o.active.Done()
+	o.mu.Lock()
+	o.glueExecWaits = append(o.glueExecWaits, b)
+	o.mu.Unlock()
+	select {
+	case <-ctx.Done():
+		return ctx.Err()
+	case <-o.release:
+		return errC46AttemptFailed
+	}
+}
+
+// c46DriveGlue hands a coordination result to the REAL processCoordinationResult
+// of a node that holds the instrumented real signing executor; the action is
+// created, given its start and expiry blocks and dispatched by the production
+// code. Current block = end of the coordination window.
+func c46DriveGlue(t *rapid.T, action WalletActionType, coordinationBlock uint64) (*c46GlueRun, bool) {
+	window := &coordinationWindow{coordinationBlock: coordinationBlock}
+	o := c46NewObs(window.endBlock())
+	sc := c46NewScenario(t, action, o, o.glueExecWait)
+	keyBytes, err := marshalPublicKey(sc.w.publicKey)
+	if err != nil {
+		t.Fatalf("marshal: %v", err)
+	}
+	key := hex.EncodeToString(keyBytes)
+	n := &node{
+		groupParameters:          &GroupParameters{GroupSize: 3, GroupQuorum: 2, HonestThreshold: 2},
+		chain:                    sc.host,
+		btcChain:                 sc.btc,
+		walletDispatcher:         newWalletDispatcher(),
+		protocolLatch:            generator.NewProtocolLatch(),
+		heartbeatFailureCounter:  newHeartbeatFailureCounter(),
+		signingExecutors:         map[string]*signingExecutor{key: sc.real},
+		inactivityClaimExecutors: map[string]*inactivityClaimExecutor{key: {}},
+	}
+	processCoordinationResult(n, &coordinationResult{wallet: sc.w, window: window, proposal: sc.proposal})
+
+	idle := func() bool {
+		n.walletDispatcher.actionsMutex.Lock()
+		defer n.walletDispatcher.actionsMutex.Unlock()
+		return len(n.walletDispatcher.actions) == 0
+	}
+	// the action registers its signing deadline, the executor its loop
+	// timeout and the first attempt wait - or the action ends early
+	reached := verifkit.Eventually(c46Patience, func() bool {
+		o.mu.Lock()
+		defer o.mu.Unlock()
+		return len(o.glueDeadlines) >= 1 && len(o.glueExecWaits) >= 2
+	})
+	early := !reached && idle()
+	// end of the signing phase: the awaited deadline blocks arrive
+	o.mu.Lock()
+	for i, ch := range o.glueWaiters {
+		ch <- o.glueDeadlines[i]
+	}
+	o.mu.Unlock()
+	finished := verifkit.Eventually(c46Patience, idle)
+	joined := o.join()
+	if early {
+		t.Fatalf("%v dispatched by processCoordinationResult ended before its signing step", action)
+	}
+	if !reached || !finished || !joined {
+		return nil, false
+	}
+	o.mu.Lock()
+	defer o.mu.Unlock()
+	return &c46GlueRun{
+		deadlines: append([]uint64{}, o.glueDeadlines...),
+		execWaits: append([]uint64{}, o.glueExecWaits...),
+		confirm:   append([]uint64{}, o.confirm...),
+	}, true
 }
 
 func c46GenStart(t *rapid.T) (uint64, string) {
@@ -704,9 +919,34 @@ func TestVerif_C46_SigningWindow(t *testing.T) {
 			lateClass = rapid.SampledFrom([]string{"binding", "binding", "any", "at-or-after"}).Draw(t, "laterMessageStart")
 			lateRaw = uint64(rapid.IntRange(0, 1<<20).Draw(t, "laterMessageOffset"))
 		}
-		run, ok := c46Drive(t, action, start, lateClass, lateRaw)
+		// chain-client fault at the moment the action arms its signing
+		// deadline (node.waitForBlockHeight returns the error of
+		// BlockCounter()/BlockHeightWaiter()): the signing phase must still
+		// be bounded by that deadline
+		failArming := rapid.IntRange(0, 5).Draw(t, "blockWaitFailsWhenArmingTheDeadline") == 0
+		run, ok := c46Drive(t, action, start, lateClass, lateRaw, failArming)
 		if !ok {
 			c46Inconclusive(t, "stubbed block waits did not settle in time")
+		}
+		if run.unarmed != "" {
+			t.Fatalf("%v start=%d expiry=%d signing timeout=%d: the signing phase is not bounded: %s", action, start, run.expiry, run.signTimeout, run.unarmed)
+		}
+		if failArming {
+			if run.overrun != "" {
+				t.Fatalf("%v start=%d: %s", action, start, run.overrun)
+			}
+			margin := uint64(c46DocumentedSigningMargin)
+			if run.signTimeout > run.expiry || run.expiry-run.signTimeout < margin {
+				t.Fatalf("%v start=%d expiry=%d: signing deadline %d is less than the documented %d blocks before expiry", action, start, run.expiry, run.signTimeout, margin)
+			}
+			for i, c := range run.calls {
+				if c.returnedAt > run.signTimeout {
+					t.Fatalf("%v start=%d: sign() call %d returned at block %d, after the signing timeout %d whose arming failed", action, start, i+1, c.returnedAt, run.signTimeout)
+				}
+			}
+			st.Case(true, fmt.Sprintf("%v start=%d expiry=%d signing-timeout=%d arming-fault sign-calls=%d", action, start, run.expiry, run.signTimeout, len(run.calls)),
+				"action:"+action.String(), "start:"+startClass, "fault:arming-the-signing-deadline")
+			return
 		}
 		desc := fmt.Sprintf("%v start=%d expiry=%d signing=[%d,%d] loop-end=%d broadcast=%v confirm-waits=%v", action, start, run.expiry, run.signStart, run.signTimeout, run.loopEnd, run.broadcast, run.confirm)
 		if run.late != nil {
@@ -783,6 +1023,13 @@ func TestVerif_C46_HeartbeatClaimWindow(t *testing.T) {
 		start, startClass := c46GenStart(t)
 		activeMembers := rapid.IntRange(0, heartbeatSigningMinimumActiveMembers-1).Draw(t, "activeMembers")
 		o := c46NewObs(start)
+		fault := rapid.SampledFrom([]string{"none", "none", "none", "signing-deadline", "claim-deadline"}).Draw(t, "blockWaitFailsWhenArming")
+		switch fault {
+		case "signing-deadline":
+			o.failActionWait = map[int]bool{0: true}
+		case "claim-deadline":
+			o.failActionWait = map[int]bool{1: true}
+		}
 		pub := (*ecdsa.PublicKey)(&c46Key.PublicKey)
 		w := wallet{publicKey: pub}
 		host := &c46Host{o: o}
@@ -803,7 +1050,11 @@ func TestVerif_C46_HeartbeatClaimWindow(t *testing.T) {
 		joined := o.join()
 		o.mu.Lock()
 		timedOut := o.timedOut
+		unarmed := o.unarmed
 		o.mu.Unlock()
+		if unarmed != "" {
+			t.Fatalf("heartbeat start=%d expiry=%d: %s", start, expiry, unarmed)
+		}
 		if !joined || timedOut {
 			c46Inconclusive(t, "stubbed block waits did not settle in time")
 		}
@@ -820,6 +1071,59 @@ func TestVerif_C46_HeartbeatClaimWindow(t *testing.T) {
 		if claim.timeout > expiry || expiry-claim.timeout < c46DocumentedClaimMargin {
 			t.Fatalf("%s: the inactivity claim may run until block %d, less than the documented %d blocks before expiry", desc, claim.timeout, c46DocumentedClaimMargin)
 		}
-		st.Case(true, desc, "start:"+startClass, fmt.Sprintf("claim-window-blocks:%d", claim.timeout-exec.timeout))
+		st.Case(true, desc+" fault="+fault, "start:"+startClass, fmt.Sprintf("claim-window-blocks:%d", claim.timeout-exec.timeout), "fault:"+fault)
+	})
+}
+
+// The deadline relation for the (start, expiry) pair the node REALLY hands to
+// the actions: a coordination result goes through processCoordinationResult
+// (start = end of the coordination window, expiry as computed there) into the
+// production handlers, constructors and dispatcher; the harness only reads
+// which block heights the dispatched action and the real signing executor wait
+// for.
+func TestVerif_C46_CoordinationGlue(t *testing.T) {
+	c46Silence()
+	st := verifkit.New("C46", "TestVerif_C46_CoordinationGlue")
+	defer st.Flush()
+	rapid.Check(t, func(t *rapid.T) {
+		action := rapid.SampledFrom(c46Actions).Draw(t, "action")
+		var index uint64
+		indexClass := ""
+		switch rapid.IntRange(0, 3).Draw(t, "windowClass") {
+		case 0:
+			index, indexClass = uint64(rapid.IntRange(0, 3).Draw(t, "window")), "first-windows"
+		case 1:
+			index, indexClass = uint64(rapid.IntRange(15_000, 35_000).Draw(t, "window")), "mainnet"
+		case 2:
+			index, indexClass = uint64(rapid.Int64Range((1<<32)/900-2, (1<<32)/900+2).Draw(t, "window")), "32-bit-edge"
+		default:
+			index, indexClass = uint64(rapid.Int64Range(0, 1<<38).Draw(t, "window")), "any"
+		}
+		coordinationBlock := index * coordinationFrequencyBlocks
+		window := &coordinationWindow{coordinationBlock: coordinationBlock}
+		actionStart := window.endBlock()
+		run, ok := c46DriveGlue(t, action, coordinationBlock)
+		if !ok {
+			c46Inconclusive(t, "the dispatched action did not settle in time")
+		}
+		desc := fmt.Sprintf("%v coordination-block=%d window-end=%d action-waits=%v executor-waits=%v confirm-waits=%v", action, coordinationBlock, actionStart, run.deadlines, run.execWaits, run.confirm)
+		if len(run.deadlines) < 1 || len(run.execWaits) < 2 {
+			t.Fatalf("%s: expected the signing deadline of the action, the loop timeout and the first attempt wait of the executor", desc)
+		}
+		signingTimeout := run.deadlines[0]
+		firstWait, loopEnd := run.execWaits[0], run.execWaits[0]
+		for _, w := range run.execWaits {
+			firstWait, loopEnd = min(firstWait, w), max(loopEnd, w)
+		}
+		if firstWait < actionStart {
+			t.Fatalf("%s: the signing executor waits for block %d, before the action start (end of the coordination window) %d", desc, firstWait, actionStart)
+		}
+		if signingTimeout <= actionStart {
+			t.Fatalf("%s: the signing deadline %d is not after the action start %d", desc, signingTimeout, actionStart)
+		}
+		if loopEnd > signingTimeout {
+			t.Fatalf("%s: one complete signing retry loop of a single message ends at block %d, after the signing deadline %d the node's glue gives the action", desc, loopEnd, signingTimeout)
+		}
+		st.Case(true, desc, "action:"+action.String(), "window:"+indexClass, fmt.Sprintf("slack-blocks:%d", signingTimeout-loopEnd))
 	})
 }
